@@ -192,6 +192,51 @@ theorem accepted_up_down {strict : Bool} {g g' : G} {xs ys zs : List Out}
       | reject c => simp [chk] at e1; subst e1; exact List.mem_cons_of_mem _ (ih _ gb e2 h1 h2)
   exact key ys g2 g3 h5 hup hup3
 
+/-- `closed` only grows by the ids of `close` items. -/
+theorem chk_closed {strict : Bool} {g g' : G} {o : Out} (h : chk strict g o = some g') :
+    ∀ i ∈ g'.closed, i ∈ g.closed ∨ o = .close i := by
+  intro i hi
+  cases o with
+  | fsm a b => simp only [chk] at h; split at h <;> simp at h; subst h; exact Or.inl hi
+  | send c k st =>
+    simp only [chk] at h
+    split at h
+    · simp at h; subst h; cases k <;> exact Or.inl hi
+    · simp at h
+  | up => simp only [chk] at h; split at h <;> simp at h; subst h; exact Or.inl hi
+  | down => simp [chk] at h; subst h; exact Or.inl hi
+  | gotNotification c => simp [chk] at h; subst h; exact Or.inl hi
+  | close c =>
+    simp [chk] at h; subst h
+    rcases List.mem_cons.1 hi with rfl | hi
+    · exact Or.inr rfl
+    · exact Or.inl hi
+  | reject c => simp [chk] at h; subst h; exact Or.inl hi
+
+theorem chkAll_closed {strict : Bool} : ∀ {os : List Out} {g g' : G}, chkAll strict g os = some g' →
+    ∀ i ∈ g'.closed, i ∈ g.closed ∨ Out.close i ∈ os
+  | [], g, g', h => by simp [chkAll] at h; subst h; exact fun _ hi => Or.inl hi
+  | o :: os, g, g', h => by
+    obtain ⟨g1, h1, h2⟩ := chkAll_cons h
+    intro i hi
+    rcases chkAll_closed h2 i hi with h3 | h3
+    · rcases chk_closed h1 i h3 with h4 | h4
+      · exact Or.inl h4
+      · exact Or.inr (by rw [h4]; simp)
+    · exact Or.inr (List.mem_cons_of_mem _ h3)
+
+/-- every connection the peer ever had is the one it has now, or its `close` is in the trace. -/
+theorem run_transports_accounted (cfg : Cfg) (rib : Bool) (evs : List Event) :
+    ∀ i, 0 < i → i < (run (init cfg rib) evs).1.nextId →
+      (∃ k, (run (init cfg rib) evs).1.conn = some k ∧ k.id = i) ∨ Out.close i ∈ (run (init cfg rib) evs).2 := by
+  obtain ⟨g, h, r⟩ := run_acc (strict := false) evs _ g0 (rel_init cfg rib) (inv_init cfg rib) (by simp)
+  intro i h0 hi
+  rcases r.accounted i h0 hi with hcur | hcl
+  · exact Or.inl hcur
+  · rcases chkAll_closed h i hcl with h1 | h1
+    · simp [g0] at h1
+    · exact Or.inr h1
+
 /-- every run from the initial state passes the (non-strict) checker. -/
 theorem run_accepted (cfg : Cfg) (rib : Bool) (evs : List Event) :
     ∃ g, chkAll false g0 (run (init cfg rib) evs).2 = some g := by
